@@ -25,7 +25,11 @@ LEVEL_TEXT = ('Decides that every SWAPk/DUPk the greedy module can emit is bound
               'taken over all of them, deferred loads are released only when no store is pending, swapped operands need the '
               'commutative flag; the merge of the memory and the storage schedule keeps both orders for accesses that '
               'belong to both and for final loads (C04.j, evaluated on every pair of small orders); every store selection '
-              'takes byte stores (C04.i). Does not decide that the asserts are sufficient for realization in general.')
+              'takes byte stores (C04.i). Since the order post-check of greedy_from_json exists (repair of F32), the ordering clause '
+              'itself is decided for all inputs: C04.k shows that the check refuses on failure, follows compute, dominates the '
+              'assignment of error = 0, and (by evaluation on every small sequence and pair set) accepts no sequence with a reversed '
+              'pair; while it holds, what C04.h / C04.j find is a mis-ordering that costs the block its greedy solution and is counted '
+              'as refused. Does not decide that the asserts are sufficient for realization in general.')
 
 EXPLANATION = ("Interval analysis with guard refinement of every expression that builds a SWAPk/DUPk mnemonic in "
                "greedy/block_generation.py (an assert counts as a guard because AssertionError is turned into "
